@@ -4640,6 +4640,10 @@ class ResponseFuture(object):
         except ConnectionBusy as exc:
             log.debug("Connection for host %s is busy, moving to the next host", host)
             self._errors[host] = exc
+            # nothing was sent: give the borrowed stream id and the capacity it took back
+            with connection.lock:
+                connection.request_ids.append(request_id)
+            pool.return_connection(connection)
         except Exception as exc:
             log.debug("Error querying host %s", host, exc_info=True)
             self._errors[host] = exc
